@@ -45,6 +45,9 @@ PROPS["C10"] = {
 PROPS["C14"] = evalprop("calls", "Stream 'forms' (direct oracle, no model): one call - reflected fixed/variadic funcs incl. interface-typed variadic tails, methods on a value and on a pointer (fixed and variadic), jet.Func values, built-ins, a non-function - with 0-6 arguments (right or wrong count, nil/invalid and wrong-kind values, values needing conversion such as float->int) written as f(a..), f: a.., a0 | f(rest), a0 | f: rest, a0 | ident | f(rest), ak | f(.., _, ..) for every slot position k, nested in another call and as a pipe source; all spellings must render the same bytes or all fail. Every spelling also runs through the model (stream 'eval'). Stream 'stages': pipelines of 2-5 recording stages in mixed forms with the expected output and call log (each stage once, left to right). Stream 'builtins': each documented built-in on random strings (HTML-special, non-ASCII, separators) against the Go function it is documented to expose, computed by the harness.")
 PROPS["C14"]["lean_modules"] = ["C14"]
 
+PROPS["C18"] = evalprop("runtime API", "Stream 'twins' (direct oracle, no model): the same random sequence of variable / context / block operations at nesting depth 0-3 (if, range with and without variables, try, if-with-declaration, include), over names that are template variables, root variables, Set globals ('g'), default functions ('len') or unknown, written once with template syntax (:=, =, identifier, '.', yield name() ctx) and once through Runtime.Let/Set/SetOrLet/Resolve/Context/YieldBlock from inside jet.Func values; both must render the same bytes or both fail. Stream 'api-expect': fixed-shape programs with generator-computed outputs for what has no syntax twin (LetGlobal from any depth, through blocks and includes; SetOrLet on names of globals/defaults; YieldBlock once, with/without context, with a recording block body). Stream 'argpos' (direct oracle): a jet.Func reading Arguments.Get/NumOfArguments, one using ParseInto(&int,&string,&interface{}) and one using IsSet, each next to a reflected Go function / isset() receiving the same call, over plain, prefix, piped, slot-at-any-index and chained shapes with 0-4 arguments. Every API program also runs through the model (stream 'eval').")
+PROPS["C18"]["lean_modules"] = ["C18"]
+
 PROPS["C19"] = {
     "lean_modules": ["C19"],
     "rule": "stream 'inmem': histories of 3-12 Set/Delete/Exists/Open operations on one InMemLoader over 3 base names, each operation with a random spelling (./, leading/trailing slashes, x/../, //, clean form); non-trivial = contains a Delete. stream 'multi': stacks of 0-3 in-memory loaders with overlapping contents, every path queried with Exists and Open; non-trivial = >= 2 loaders. stream 'fs' (oracle only): OS, http (http.Dir), embed loaders and an OS loader stacked under an empty in-memory loader over one tree (files, nested and empty directories), every canonical path and near-misses.",
@@ -120,6 +123,11 @@ MANIFEST_TEXT = {
         "level": "Lean 4 theorems about the evaluator model, for all argument lists, signatures, piped values and states: (a) for reflected functions, evaluateArgs of `x | f(a..)` equals evaluateArgs of `f(x, a..)` and of `x | f(.., _, ..)` equals the plain call with the slot filled, whenever x is a value expression; (b) for jet.Func values, Arguments.Get / NumOfArguments of the piped forms coincide index-by-index with the plain form; (c) a pipeline is the left-to-right composition of its stages, each evaluated exactly once; (d) a SafeWriter stage that is not last is a located error; (e) the built-in table regenerated from default.go binds every documented name to the Go function it documents (decide). Tie: differential execution of call-heavy programs + three direct oracles (all spellings agree; recorded stage order; built-ins vs the Go standard library).",
         "note": "Methods are exercised by the oracle streams only (the model treats the method-carrying type as opaque); url/json/writeJson are checked by the built-ins oracle, not modelled.",
         "technique": "Lean 4 proof about the evaluator model + decide over regenerated facts + differential correspondence + direct oracles",
+    },
+    "C18": {
+        "level": "Lean 4 theorems about the evaluator model with the Runtime API inside it, for every runtime state: Let has exactly the effect of `name := v` at the call site; Set succeeds, rebinds and fails exactly as `name = v`; SetOrLet is Set when some open scope declares the name and Let otherwise, independent of globals and defaults; Resolve returns what the identifier evaluates to; Context is '.'; LetGlobal writes the last scope of the chain; YieldBlock(name, ctx) equals `{{yield name() ctx}}` for parameterless blocks (body executed once, '.' restored) - the last via the evaluator's restore invariant (recGood_recAt); Arguments.IsSet/Get/NumOfArguments place piped and slot values where a plain call has them (with C14's theorems). Tie: differential execution of API-using programs; direct oracles: syntax/API twin programs, computed expectations, jet.Func vs reflected function on the same call.",
+        "note": "ParseInto is covered by correspondence and the argpos oracle (modelled for int/string/interface{} targets), not by a theorem. MustResolve is not exercised.",
+        "technique": "Lean 4 proof about the evaluator model + differential correspondence + direct oracles (twin programs)",
     },
     "C19": {
         "level": "Machine-checked Lean 4 theorems over all histories of Set/Delete and all spellings: the in-memory loader is a finite map keyed by the normalised path (set-then-open returns the stored content under every spelling with that normal form, delete removes it under every spelling and nothing else, Exists implies Open); Multi.Open is the first stacked loader's Open that succeeds and Multi keeps Exists => Open. File-system loaders are modelled as a tree of regular files; their agreement with os/http/embed is exercised on real trees (partial by nature).",
